@@ -1,3 +1,7 @@
 import SluVerif.Model.Perm
 import SluVerif.Model.Check
 import SluVerif.Model.Sparse
+import SluVerif.Props.Checkers
+import SluVerif.Model.Pivot
+import SluVerif.Proofs.PivotLemmas
+import SluVerif.Props.C02
